@@ -56,7 +56,7 @@ fn never_blocks(op: &Op, kinds: &[ChanKind]) -> bool {
         Op::DropTx(_) | Op::DropRx(_) => true,
         Op::Spawn(_) | Op::Unpark(_) | Op::Abort(_) | Op::DropHandle(_) | Op::IsFinished(_) => true,
         Op::TryAcquire(..) | Op::Release(..) | Op::Close(_) | Op::Avail(_) | Op::AcqDrop => true,
-        Op::EvSet(_) | Op::EvWake(_) | Op::Rand(_) | Op::ResetSteps => true,
+        Op::EvSet(_) | Op::EvWake(_) | Op::Rand(_) | Op::ResetSteps | Op::Label(_) => true,
         _ => false,
     }
 }
